@@ -42,6 +42,21 @@ def run_c13(it):
         # value = distance / len(query)
         return dtwx.enc_cost(c, float(value) * lq)
 
+    # the same numbers in another memory layout (Fortran order for multivariate series, every second element
+    # of a larger array for univariate ones): the matching function may not depend on it
+    def relayout(a):
+        if a.ndim == 2:
+            return np().asfortranarray(a)
+        b = np().zeros(2 * len(a))
+        b[::2] = a
+        return b[::2]
+    for use_c in (False, True):
+        tag = "c" if use_c else "py"
+        r = dtwx.guarded(lambda: subsequence_alignment(relayout(q), relayout(s), penalty=pen, use_c=use_c).matching_function())
+        if dtwx.is_raised(r):
+            mf.append({"route": tag + ":matching_function[other memory layout]:raised", "vals": [dtwx.RAISED]})
+        else:
+            mf.append({"route": tag + ":matching_function[other memory layout]", "vals": [cost_of(v) for v in r]})
     for use_c in (False, True):
         tag = "c" if use_c else "py"
         r = dtwx.guarded(lambda: subsequence_alignment(q, s, penalty=pen, use_c=use_c))
